@@ -72,7 +72,8 @@ func derivesFromValue(v ssa.Value, src map[ssa.Value]bool) bool {
 
 type fitGuard struct {
 	ifi  *ssa.If
-	kind string // "width" or "key"
+	kind string    // "width" or "key"
+	elem ssa.Value // the row whose length / the key position that is tested
 }
 
 // fitGuards finds, in fn, the tests that reject a row narrower than the column
@@ -127,11 +128,11 @@ func fitGuardsX(fn *ssa.Function, rows map[ssa.Value]bool, isCols func(ssa.Value
 		rejectsLess := (failTrue && (op == token.LSS || op == token.LEQ || op == token.NEQ)) || (failFalse && (op == token.GEQ || op == token.GTR || op == token.EQL))
 		rejectsGeq := (failTrue && op == token.GEQ) || (failFalse && op == token.LSS)
 		if x := lenArgOf(a); x != nil && rejectsLess && derivesFromValue(x, rows) {
-			out = append(out, fitGuard{ifi, "width"})
+			out = append(out, fitGuard{ifi, "width", x})
 			continue
 		}
 		if rejectsGeq && isKeyPos(a) {
-			out = append(out, fitGuard{ifi, "key"})
+			out = append(out, fitGuard{ifi, "key", a})
 		}
 	}
 	return out
@@ -145,6 +146,36 @@ func guardCoversAll(fn *ssa.Function, g fitGuard) (*ssa.BasicBlock, string) {
 	h := enclosingLoop(gb)
 	if h == nil {
 		return nil, "the test is not inside a loop over the elements"
+	}
+	// the loop must be the one that walks the elements: what is tested is selected by this
+	// loop's own induction variable — a test of one fixed element (rows[0]) inside an outer loop
+	// over something else covers nothing (round 7, C17-r7m2)
+	if g.elem != nil {
+		selected := false
+		for x := range backward(g.elem, nil) {
+			var idx ssa.Value
+			switch y := x.(type) {
+			case *ssa.IndexAddr:
+				idx = y.Index
+			case *ssa.Index:
+				idx = y.Index
+			case *ssa.Next:
+				if enclosingLoop(y.Block()) == h || y.Block() == h {
+					selected = true
+				}
+			}
+			if idx == nil {
+				continue
+			}
+			for z := range backward(idx, nil) {
+				if ph, ok := z.(*ssa.Phi); ok && ph.Block() == h {
+					selected = true
+				}
+			}
+		}
+		if !selected {
+			return nil, "the tested element is not selected by the loop's own index: one fixed element is tested, not every element"
+		}
 	}
 	body := loopBody(h)
 	for _, p := range h.Preds {
